@@ -973,8 +973,22 @@ def real_binaries(ctx, rnd, lines, impl, inline_lines, inline_impl):
         seen = set(); pick = [c for c in pick if not (c[2] in seen or seen.add(c[2]))]
         if len(pick) >= 2:
             hist_groups.append(pick + pick[::-1][1:])
+    # ... and state carried from one transform to another: a decode of a string with a foreign prefix followed by the encoders, and
+    # shuffled mixtures of all transforms, each answer compared with the same call in a fresh process
+    decs = [c for c in by_name.get("bech32-decode", []) if not c[2].split(" ")[2].lower().startswith("bcrt1")]
+    encs = by_name.get("bech32-encode", [])[:4] + by_name.get("bech32m-encode", [])[:4] + by_name.get("scriptpubkey-to-addr", [])[:2] + by_name.get("base58chk-encode", [])[:2]
+    cross = []
+    for k in range(0, min(len(decs), 12), 3):
+        g = []
+        for d in decs[k:k + 3]:
+            g.append(d); g.extend(encs[: 4 + k % 5])
+        if len(g) >= 2: cross.append(g)
+    pool = [cs[j] for cs in by_name.values() for j in (0, len(cs) // 2) if j < len(cs)]
+    for _ in range(3 if quick else 30):
+        rnd.shuffle(pool)
+        cross.append(list(pool[:40]))
     cand = cand[:240 if quick else 3000]
-    groups = [cand[k:k + 30] for k in range(0, len(cand), 30)] + hist_groups
+    groups = [cand[k:k + 30] for k in range(0, len(cand), 30)] + hist_groups + cross
 
     scratch = tempfile.mkdtemp(prefix="c14-session-")     # btcdeb writes .btcdeb_history into its working directory
 
@@ -999,9 +1013,12 @@ def real_binaries(ctx, rnd, lines, impl, inline_lines, inline_impl):
                 continue
             bad += 1
             if bad <= 3:
+                stateful = any(g is x for x in hist_groups + cross)
                 ctx.violation(l, {"stream": "btcdeb-session", "typed": cmd, "session_output": got[:600], "in_process": want[:600],
-                                  "why": "the interactive btcdeb session answers `tf` differently from fn_tf called in process"},
-                              suffix="no-failing-input-found")
+                                  "commands_typed_before_it_in_the_same_session": [c[2][:200] for c in g[:k]] if stateful else "(a batch of independent commands)",
+                                  "why": "the interactive btcdeb session answers `tf` differently from fn_tf called in a fresh process" +
+                                         (": the answer depends on what was evaluated before it" if stateful else "")},
+                              suffix="" if stateful else "no-failing-input-found")
     ctx.count("btcdeb-session", n, distinct_keys=["sess:%d" % k for k in range(n)])
     ctx.traces += n
     # --- btcc
